@@ -16,6 +16,7 @@ func init() {
 	register(&Property{ID: "C09", Run: runC09, Mutants: []Mutant{
 		{Name: "SSA builder forgets the Chinese break", File: "internal/ssa/builder.go", Old: "case token.BREAK, token.Zh_跳出:", New: "case token.BREAK:", Expect: "bilingual-case-completeness"},
 		{Name: "type checker forgets the Chinese continue", File: "internal/types/stmt.go", Old: "case token.CONTINUE, token.Zh_继续:", New: "case token.CONTINUE:", Expect: "bilingual-case-completeness"},
+		{Name: "Chinese __LINE__ accessor returns the English object", File: "internal/types/universe.go", Old: "\tif p.pkg.W2Mode {\n\t\treturn wzUniverse__LINE__", New: "\tif p.pkg.W2Mode {\n\t\treturn waUniverse__LINE__", Expect: "language-accessor-pairing :: internal/types.Checker._universe__LINE__"},
 		{Name: "Wz universe loses a builtin", File: "internal/types/universe_wz.go", Old: "\t_Len:     {K_长, 1, false, expression},\n", New: "", Expect: "universe-bijection"},
 		{Name: "Wz builtin arity differs", File: "internal/types/universe_wz.go", Old: "\t_Cap:     {K_容量, 1, false, expression},", New: "\t_Cap:     {K_容量, 2, false, expression},", Expect: "universe-bijection :: _Cap"},
 		{Name: "Chinese keyword spelled like another", File: "internal/token/token.go", Old: "\tK_继续 = \"继续\"", New: "\tK_继续 = \"跳出\"", Expect: "keyword-table"},
@@ -59,7 +60,7 @@ func fieldOfTokenExpr(info *types.Info, e ast.Expr) string {
 
 func runC09(c *Ctx) {
 	c.Explain = "Decides structural clauses of Wz/Wa equivalence: (1) bilingual case completeness: the Wz parser stores Chinese keyword tokens in the shared AST, so for every AST token field F the set W(F) of tokens the Wz parser can store there is computed from the parser (constants, one level of parameter passing, guards on the current token), and every switch arm or comparison on F in the consumers (type checker, SSA builder, AST utilities, loader, formatter, printer, back ends) that mentions one member of an English/Chinese twin pair must mention the other in the same arm or disjunction whenever F can hold it; today's paired arms are the confirmed instances, today's asymmetric sites are a frozen triaged table; " +
-		"(2) universe bijection: universe_wa.go and universe_wz.go define the same builtin ids with equal (nargs, variadic, kind), and no name twice; (3) keyword table: every Zh_* token has one spelling, distinct from all other keywords. " +
+		"(2) universe bijection: universe_wa.go and universe_wz.go define the same builtin ids with equal (nargs, variadic, kind), and no name twice; (3) keyword table: every Zh_* token has one spelling, distinct from all other keywords; (4) language-accessor-pairing: every accessor of the shape `if W2Mode { return A } else { return B }` over per-language objects returns the wz twin of B in its Chinese branch. " +
 		"NOT decided: that the two parsers build equal trees for equal programs; per-arm pairing of print/println with their Chinese names (the universe table and the docs disagree and the back end dispatches on the name, so behaviour is consistent)."
 	c.Trusted = []string{"go/packages, go/types (x/tools v0.29.0)", "frozen twin-token table (c09.go)"}
 	p := c.Load(LoadOpt{Light: true}, "./internal/token", "./internal/types", "./internal/ssa", "./internal/ast", "./internal/ast/astutil", "./internal/loader", "./internal/format", "./internal/printer",
@@ -74,6 +75,7 @@ func runC09(c *Ctx) {
 	if tk == nil {
 		return
 	}
+	c09AccessorPairing(c, p, p.Pkg("internal/types"), p.Pkg("internal/loader"), p.Pkg("internal/ssa"))
 	// the twin table must name existing constants
 	for _, t := range c09Twins {
 		for _, n := range t {
